@@ -178,7 +178,12 @@ func (g *gen) signedDoc(r *hx.Rng, kind string, sd *suiteDef, idx int) (map[stri
 		sign = g.w.signVP
 	}
 
-	so := signOpts{suite: sd, key: sd.keys[r.Intn(len(sd.keys))],
+	var k0 *keyInfo
+	if len(sd.keys) > 0 {
+		k0 = sd.keys[r.Intn(len(sd.keys))]
+	}
+
+	so := signOpts{suite: sd, key: k0,
 		created: time.Date(2021, time.Month(1+r.Intn(12)), 1+r.Intn(28), r.Intn(24), r.Intn(60), r.Intn(60), 0, time.UTC)}
 
 	if r.Intn(3) != 0 {
@@ -193,6 +198,17 @@ func (g *gen) signedDoc(r *hx.Rng, kind string, sd *suiteDef, idx int) (map[stri
 		so.purpose = "authentication"
 	}
 
+	if sd.di {
+		key := g.w.di.keys[r.Intn(2)]
+		if so.purpose == "authentication" && len(key.purposes) < 2 {
+			key = g.w.di.keys[0]
+		}
+
+		signed, err := g.w.signDI(kind, doc, key, so.created, so.purpose, so.domain, so.challenge)
+
+		return signed, 1, err
+	}
+
 	signed, err := sign(doc, so)
 	if err != nil {
 		return nil, 0, err
@@ -203,7 +219,7 @@ func (g *gen) signedDoc(r *hx.Rng, kind string, sd *suiteDef, idx int) (map[stri
 	if idx%5 == 4 && sd.extra == "" {
 		// a second proof by another suite / key over the same document
 		sd2 := g.w.suites[(idx/5)%len(g.w.suites)]
-		if sd2.extra == "" {
+		if sd2.extra == "" && !sd2.di {
 			so2 := signOpts{suite: sd2, key: sd2.keys[r.Intn(len(sd2.keys))],
 				created: time.Date(2022, time.Month(1+r.Intn(12)), 1+r.Intn(28), 1, 2, 3, 0, time.UTC), challenge: g.fresh("challenge")}
 
@@ -305,8 +321,13 @@ func (g *gen) edits(r *hx.Rng, kind string, sd *suiteDef, signed map[string]inte
 			claimLeaves = append(claimLeaves, n)
 
 			leafClass := "must-reject"
-			if n.p.has("@context") && kind == "vp" {
-				leafClass = "model" // the presentation itself may not use a term of that context
+			if n.p.has("@context") {
+				// a context entry the signed content uses no term of can be dropped or altered without changing the
+				// RDF dataset; only the two contexts every generated credential uses are certain to matter
+				v, _ := get(signed, n.p).(string)
+				if kind == "vp" || len(n.p) != 2 || (v != vcCtx && v != ctxURL) {
+					leafClass = "model"
+				}
 			}
 
 			add("change "+n.p.String(), leafClass, func(d map[string]interface{}) bool {
@@ -644,10 +665,19 @@ func applyOps(d map[string]interface{}, ops []op) {
 		p := path{}
 
 		for _, e := range o.Path {
-			if f, ok := e.(float64); ok {
-				p = append(p, int(f))
-			} else {
-				p = append(p, e)
+			switch x := e.(type) {
+			case float64:
+				p = append(p, int(x))
+			case json.Number:
+				n, _ := x.Int64()
+				p = append(p, int(n))
+			case string:
+				// a member name under an array means "of its first element" (a single proof may be printed as an array)
+				if _, isArr := get(d, p).([]interface{}); isArr {
+					p = append(p, 0)
+				}
+
+				p = append(p, x)
 			}
 		}
 
@@ -694,8 +724,18 @@ func runCorpusCase(w *world, tr *hx.Trace, genName string, c corpusCase) {
 		sign = w.signVP
 	}
 
-	signed, err := sign(un, signOpts{suite: sd, key: sd.keys[0], created: time.Date(2021, 2, 3, 4, 5, 6, 0, time.UTC),
-		domain: "d", challenge: "c"})
+	var (
+		signed map[string]interface{}
+		err    error
+	)
+
+	if sd.di {
+		signed, err = w.signDI(c.Kind, un, w.di.keys[0], time.Date(2021, 2, 3, 4, 5, 6, 0, time.UTC), "", "d", "c")
+	} else {
+		signed, err = sign(un, signOpts{suite: sd, key: sd.keys[0], created: time.Date(2021, 2, 3, 4, 5, 6, 0, time.UTC),
+			domain: "d", challenge: "c"})
+	}
+
 	if err != nil {
 		fmt.Fprintln(os.Stderr, "c07: cannot sign corpus document:", err)
 		os.Exit(2)
